@@ -1,21 +1,177 @@
-import Srctools.Model.C14
+import Srctools.Proofs.C14
+import Srctools.Proofs.C14Kv1
 import Srctools.Gen.Dmx
 /-!
 # C14 — DMX export/parse preserves the element graph (binary and KeyValues2), KV1 bridge
-Property theorems only (model: Model/C14.lean, tables: Gen/Dmx.lean).
+
+Property theorems only.  Model: `Model/C14.lean` (binary codec of `export_binary` / `parse_bin` on
+indexed graphs, string tables, type codes, `from_kv1` / `to_kv1`), instantiated with the tables
+regenerated from `/repo/src/srctools/dmx.py` (`Gen/Dmx.lean`).  The general theorems hold for every
+table satisfying the decidable predicates `codesOK` / `layoutOK`; the `C14_gen_*` obligations
+re-check those predicates on the tables the source has *now*.
 -/
 namespace C14
 
-/-- OBLIGATION on the current source: every one of the 14 × 2 (type, scalar/array) wire codes fits a
-byte and is decoded back to the same (type, shape) by the comparison `parse_bin` uses now. -/
+/-! ## obligations on the current source -/
+
+/-- OBLIGATION: every one of the 14 × 2 (type, scalar/array) wire codes fits a byte and is decoded
+back to the same (type, shape) by the comparison `parse_bin` uses now (`>` after the fix; with `>=`
+scalar MATRIX = 14 = ARRAY_OFFSET is taken for an array of type 0 and this fails). -/
 theorem C14_gen_codes : codesOK Gen.Dmx.tables = true := by decide
 
-/-- **Type codes.** For every table satisfying the decidable predicate, decoding the encoded type
-byte gives back the type and the scalar/array flag. -/
+/-- OBLIGATION: `parse_bin` and `export_binary` use the same string-table widths for every
+version 0–5, each version has either no table or 2/4-byte count and index, and what is written
+after a stub marker is what is read after it. -/
+theorem C14_gen_layout : layoutOK Gen.Dmx.tables = true := by decide
+
+/-- OBLIGATION: `SIZES` equals the sizes of the struct formats. -/
+theorem C14_gen_sizes : sizesOK Gen.Dmx.tables = true := by decide
+
+/-- OBLIGATION: the exporter writes the UUID text after the `-2` stub marker. -/
+theorem C14_gen_stub : Gen.Dmx.tables.stubWrite = .uuidText := by decide
+
+/-! ## (i) type codes -/
+
+/-- **Type codes.** For every table satisfying `codesOK`, decoding the encoded type byte gives back
+the type and the scalar/array flag, for all 14 types × {scalar, array}. -/
 theorem C14_codes (T : Tables) (h : codesOK T = true) (t : VT) (arr : Bool) :
-    decodeType T (encodeType T t arr) = some (t, arr) ∧ encodeType T t arr < 256 := by
-  simp only [codesOK, VT.all, List.all_cons, List.all_nil, Bool.and_true, Bool.and_eq_true,
-    decide_eq_true_eq, beq_iff_eq] at h
-  cases t <;> cases arr <;> simp_all
+    decodeType T (encodeType T t arr) = some (t, arr) ∧ encodeType T t arr < 256 :=
+  codesOK_spec T h t arr
+
+theorem C14_codes_current (t : VT) (arr : Bool) :
+    decodeType Gen.Dmx.tables (encodeType Gen.Dmx.tables t arr) = some (t, arr) :=
+  (C14_codes _ C14_gen_codes t arr).1
+
+/-- The defect that was in the source: with `>=` at the decode site the scalar MATRIX code is not
+decodable (`IND_TO_VALTYPE[0]` → KeyError). -/
+theorem C14_codes_ge_defect :
+    decodeType { Gen.Dmx.tables with decodeCmp := .ge }
+      (encodeType { Gen.Dmx.tables with decodeCmp := .ge } .matrix false) = none := by decide
+
+/-! ## (ii) string table -/
+
+/-- **String table.** A string that was collected is in the table; when the table fits the index
+width of the version (`fitsWidth`), the written index is read back and looked up to the same string. -/
+theorem C14_strtab (iw : Nat) (hw : 0 < iw) (ss : List Bytes) (s : Bytes) (hs : s ∈ ss)
+    (hf : fitsWidth iw ((mkTable ss).length + 1) = true) (rest : Bytes) :
+    getStrRef iw (mkTable ss) (putStrRef iw (mkTable ss) s ++ rest) = .ok (s, rest) :=
+  getStrRef_putStrRef iw hw (mkTable ss) s ((mem_mkTable s ss).mpr hs) hf rest
+
+/-- The table itself (count + NUL-terminated strings) is read back. -/
+theorem C14_strtab_table (cw : Nat) (hw : 0 < cw) (uni : Bool) (tbl : List Bytes)
+    (hf : fitsWidth cw (tbl.length + 1) = true)
+    (hs : ∀ s ∈ tbl, s.contains 0 = false ∧ decodable uni s = true) (rest : Bytes) :
+    getTable cw uni (putTable cw tbl ++ rest) = .ok (tbl, rest) :=
+  getTable_putTable cw hw uni tbl hf hs rest
+
+/-! ## (iii) sub-codecs -/
+
+/-- little-endian two's complement integers of any width. -/
+theorem C14_int_partial (w : Nat) (hw : 0 < w) (i : Int)
+    (hlo : -((256 ^ w / 2 : Nat) : Int) ≤ i) (hhi : i < ((256 ^ w / 2 : Nat) : Int)) (rest : Bytes) :
+    getInt w (putInt w i ++ rest) = .ok (i, rest) :=
+  getInt_putInt w hw i hlo hhi rest
+
+/-- NUL-terminated strings. -/
+theorem C14_cstr_partial (uni : Bool) (s rest : Bytes) (h0 : s.contains 0 = false)
+    (hd : decodable uni s = true) : getCStr uni (putCStr s ++ rest) = .ok (s, rest) :=
+  getCStr_putCStr uni s rest h0 hd
+
+/-- arrays: `n` items written one after the other are read back by `n` calls of the item reader. -/
+theorem C14_array_partial {α : Type} (p : Parser α) (put : α → Bytes) (xs : List α)
+    (h : ∀ x ∈ xs, ∀ rest, p (put x ++ rest) = .ok (x, rest)) (rest : Bytes) :
+    getMany p xs.length (xs.flatMap put ++ rest) = .ok (xs, rest) :=
+  getMany_flatMap p put xs h rest
+
+/-- element references: index, `-1` NULL, `-2` + UUID text for a stub. -/
+theorem C14_ref_partial (T : Tables) (n : Nat) (hn : n < 2147483648) (r : Ref)
+    (h : valOK T n .element (.ref r) = true) (rest : Bytes) :
+    getRef T n (putRef T r ++ rest) = .ok (r, rest) :=
+  getRef_putRef T n hn r h rest
+
+/-- one value of any of the 14 types (fixed-size through the struct format, string, blob, reference). -/
+theorem C14_value_partial (T : Tables) (c : Cfg) (iw : Nat) (tbl : List Bytes) (n : Nat)
+    (hn : n < 2147483648) (t : VT) (isArray : Bool) (v : Val)
+    (hv : valOK T n t v = true) (hc : valCtxOK c iw tbl isArray v) (rest : Bytes) :
+    getVal T c iw tbl n t isArray (putVal T c iw tbl t isArray v ++ rest) = .ok (v, rest) :=
+  getVal_putVal T c iw tbl n hn t isArray v hv hc rest
+
+/-- one attribute record (name, type byte, optional array size, values). -/
+theorem C14_attr_partial (T : Tables) (hT : codesOK T = true) (c : Cfg) (iw : Nat) (tbl : List Bytes)
+    (n : Nat) (hn : n < 2147483648) (a : Attr) (ha : attrOK T c n a = true)
+    (hc : attrCtxOK c iw tbl a) (rest : Bytes) :
+    getAttr T c iw tbl n (putAttr T c iw tbl a ++ rest) = .ok (a, rest) :=
+  getAttr_putAttr T hT c iw tbl n hn a ha hc rest
+
+/-! ## (iii) the indexed element graph -/
+
+/-- **Binary round trip.** For every table satisfying the decidable predicates, every encoding
+version and both string encodings, parsing the exported bytes of a well-formed indexed graph gives
+back exactly that graph: same elements (type, name, UUID) in the same order, same attributes in the
+same order with the same names, types, scalar/array shape and values, references to the same
+indices, NULL and stubs (with their UUID) kept as such. -/
+theorem C14_graph (T : Tables) (hT : codesOK T = true) (hL : layoutOK T = true)
+    (c : Cfg) (g : Graph) (hg : graphOK T c g = true) :
+    decodeBin T c (encodeBin T c g) = .ok g :=
+  decodeBin_encodeBin T hT hL c g hg
+
+/-- … instantiated at the tables of the current source. -/
+theorem C14_graph_current (c : Cfg) (g : Graph) (hg : graphOK Gen.Dmx.tables c g = true) :
+    decodeBin Gen.Dmx.tables c (encodeBin Gen.Dmx.tables c g) = .ok g :=
+  C14_graph _ C14_gen_codes C14_gen_layout c g hg
+
+/-! ## (v) KeyValues1 bridge -/
+
+/-- **KV1 bridge.** `to_kv1(from_kv1(t)) = t` for every Keyvalues tree whose roots are only at the
+top, for any case-folding function. -/
+theorem C14_kv1 (fold : Str → Str) (t : KV) (h : t.ok = true) : toKv1 (fromKv1 fold t) = t :=
+  toKv1_fromKv1 fold t h
+
+/-! ## non-vacuity -/
+
+/-- a graph with a self reference, a mutual cycle, NULL, a stub, a scalar matrix, an empty array,
+a scalar string and a string array. -/
+def C14_sample : Graph :=
+  let u : Bytes := [49, 50, 51, 52, 53, 54, 55, 56, 45, 49, 50, 51, 52, 45, 49, 50, 51, 52, 45, 49, 50, 51, 52,
+                    45, 49, 50, 51, 52, 53, 54, 55, 56, 57, 48, 97, 98]
+  { elems := [
+    { type := [68], name := [114], uuid := List.replicate 16 1, attrs := [
+        { name := [109], type := .matrix, isArray := false, vals := [.fixed [1065353216, 0, 0, 0, 1065353216, 0, 0, 0, 1065353216]] },
+        { name := [99], type := .element, isArray := true, vals := [.ref (.idx 1), .ref .null, .ref (.stub u), .ref (.idx 0)] },
+        { name := [115], type := .string, isArray := false, vals := [.str [104, 105]] },
+        { name := [116], type := .string, isArray := true, vals := [.str [], .str [120]] },
+        { name := [101], type := .time, isArray := true, vals := [] },
+        { name := [105], type := .int, isArray := false, vals := [.fixed [-5]] }] },
+    { type := [68], name := [], uuid := List.replicate 16 2, attrs := [
+        { name := [112], type := .element, isArray := false, vals := [.ref (.idx 0)] },
+        { name := [98], type := .binary, isArray := false, vals := [.bin [0, 255]] }] }] }
+
+example : graphOK Gen.Dmx.tables { v := 5, uni := false } C14_sample = true := by decide +kernel
+example : graphOK Gen.Dmx.tables { v := 3, uni := true } C14_sample = true := by decide +kernel
+example : graphOK Gen.Dmx.tables { v := 4, uni := false } C14_sample = true := by decide +kernel
+
+def C14_isOk (r : Except Err Graph) (g : Graph) : Bool :=
+  match r with
+  | .ok g' => decide (g' = g)
+  | .error _ => false
+
+example : C14_isOk (decodeBin Gen.Dmx.tables { v := 4, uni := false }
+    (encodeBin Gen.Dmx.tables { v := 4, uni := false } C14_sample)) C14_sample = true := by decide +kernel
+
+/-- The second defect that was in the source: when the exporter writes nothing after the `-2`
+marker, the sample graph (which has a stub) is not read back. -/
+example : C14_isOk (decodeBin { Gen.Dmx.tables with stubWrite := .none } { v := 5, uni := false }
+    (encodeBin { Gen.Dmx.tables with stubWrite := .none } { v := 5, uni := false } C14_sample))
+    C14_sample = false := by decide +kernel
+
+example : codesOK { Gen.Dmx.tables with decodeCmp := .ge } = false := by decide
+
+def C14_kvSample : KV :=
+  .block none [.block (some ['a']) [.leaf ['x'] ['1'], .leaf ['X'] ['2']],
+               .block (some ['b']) [.leaf ['n', 'a', 'm', 'e'] ['v'], .block (some []) []],
+               .block (some ['c']) [.leaf ['p'] ['q'], .leaf ['r'] []]]
+
+example : C14_kvSample.ok = true := by decide +kernel
+example : toKv1 (fromKv1 (fun s => s.map Char.toLower) C14_kvSample) = C14_kvSample := by rfl
 
 end C14
